@@ -230,9 +230,13 @@ def handler_types(repo, res):
     mod = repo.mod(AF)
     ui = UnitInterp(repo, mod, module_helpers(repo))
     untyped = []
+    r10 = res.rule("C07-R10", "a result of X._implementation on operands that still carry their units (NumPy's Python-level implementation does not strip them first, spec/numpy_strips.json) may come back labelled: it is re-labelled by construction or stripped, never multiplied by the unit again", floor=3)
+    strips = _numpy_strips()
+    n_raw = 0
     for h in inv:
         res.fn(h.fn)
         np_name = h.np_name
+        ui.hazards = []
         spec = SPEC.SIG.get(np_name)
         if spec is None:
             untyped.append(h.key)
@@ -277,6 +281,30 @@ def handler_types(repo, res):
                             eff_bad.append((owner, repr(want), repr(got)))
                     elif want is not None:
                         eff_bad.append((owner, repr(want), repr(val)))
+        # C07-R10 ---------------------------------------------------------------------------------------------------
+        seen_raw = set()
+        for o in outs:
+            for call, _g in o.impl_calls:
+                for i, a in enumerate(call.args):
+                    n = a.value if isinstance(a, ast.Starred) else a
+                    if isinstance(n, ast.Name) and _reads_units_of(h.fn, n.id) and not _numpy_strips_first(strips, norm(call.func.value), i, isinstance(a, ast.Starred)):
+                        seen_raw.add((norm(call.func.value), n.id))
+        hz = []
+        for node, raw, mono in ui.hazards:
+            for npf, pos, pexpr, name in raw:
+                # the unit multiplied in is (in part) the unit of that very operand
+                base = re.match(r"\w+", pexpr).group(0)
+                own = (not mono.is_opaque) and any(re.match(r"U\((%s|%s)\b" % (re.escape(base), re.escape(name)), k) for k in mono.atoms)
+                if own and _reads_units_of(h.fn, name) and not _numpy_strips_first(strips, npf, pos, pos == "*"):
+                    hz.append((node, npf, name))
+        for npf, name in sorted(seen_raw):
+            n_raw += 1
+            mine = [x for x in hz if x[1] == npf and x[2] == name]
+            if mine:
+                node = mine[0][0]
+                res.bad(f"{h.key}:{name}", h.fn.where(node), f"{h.key} hands `{name}` to {npf}._implementation with its units on (the implementation does not convert it to a base array first, so Python-level paths inside NumPy dispatch back to unyt and the result can already carry the unit) and then multiplies the result by the unit: the unit is applied twice on those paths", "result re-labelled by construction (cls(res, units)) or stripped with .view(np.ndarray) first", norm(node)[:120], rid=r10)
+            else:
+                res.ok(f"{h.key}:{name}", r10)
         if undet and not bad:
             raise AnalysisError(f"{h.fn.where()}: unit type of {h.key} could not be inferred ({undet[0][0]})")
         if bad:
@@ -291,6 +319,47 @@ def handler_types(repo, res):
                 res.ok(h.key, r1e)
     if untyped:
         res.note(f"handlers without a signature row (not typed): {untyped}")
+
+
+_STRIPS = None
+
+
+def _numpy_strips():
+    global _STRIPS
+    if _STRIPS is None:
+        import json
+        import os
+
+        with open(os.path.join(os.path.dirname(os.path.dirname(os.path.abspath(__file__))), "spec", "numpy_strips.json"), encoding="utf-8") as f:
+            _STRIPS = json.load(f)["functions"]
+    return _STRIPS
+
+
+def _numpy_strips_first(strips, npf_text, pos, star):
+    """True when the operand certainly comes back without units: NumPy's implementation is not Python source we could
+    read (C implementations return base arrays for the functions wrapped here: not claimed), or its first use of the
+    parameter at that position is `p = asarray(p)`."""
+    name = "numpy." + npf_text.split(".", 1)[1] if npf_text.startswith(("np.", "numpy.")) else None
+    row = strips.get(name) if name else None
+    if row is None or not row.get("source"):
+        return True
+    if star or not isinstance(pos, int):
+        return False
+    params = row["params"]
+    if pos >= len(params):
+        return False
+    return params[pos] in row["stripped"]
+
+
+def _reads_units_of(fn, name):
+    for n in walk_no_nested(fn.node):
+        if isinstance(n, ast.Attribute) and n.attr == "units" and isinstance(n.value, ast.Name) and n.value.id == name:
+            return True
+        if isinstance(n, ast.Call) and norm(n.func) in ("get_units", "_validate_units_consistency", "_validate_units_consistency_v2", "getattr"):
+            if n.args and isinstance(n.args[0], ast.Name) and n.args[0].id == name:
+                if norm(n.func) != "getattr" or (len(n.args) > 1 and isinstance(n.args[1], ast.Constant) and n.args[1].value == "units"):
+                    return True
+    return False
 
 
 def finalize_rule(repo, res):
@@ -499,4 +568,7 @@ MUTANTS = [
     Mutant("vecdot-passthrough", ARR, None, "_ufunc_registry[vecdot] = _multiply_units", "_ufunc_registry[vecdot] = _passthrough_unit", ("C07-R6",)),
     Mutant("clip-out-not-relabelled", AF, "clip_impl", "        out.units = a.units\n", "        pass\n", ("C07-R7",)),
     Mutant("get-units-dedupes", AF, "get_units", "    return units\n", "    return list(dict.fromkeys(units))\n", ("C07-R8",)),
+    Mutant("einsum-multiplies-unit-in", AF, "einsum", "    if res.ndim == 0:\n        cls = unyt_quantity\n    else:\n        cls = unyt_array\n\n    return cls(res, ret_units, bypass_validation=True)", "    return res * ret_units", ("C07-R10",)),
+    Mutant("einsum-strips-then-multiplies", AF, "einsum", "    res = np.einsum._implementation(subscripts, *operands, out=out_view, **kwargs)\n\n    if getattr(out, \"units\", None) is not None:\n        out.units = ret_units\n\n    if res.ndim == 0:\n        cls = unyt_quantity\n    else:\n        cls = unyt_array\n\n    return cls(res, ret_units, bypass_validation=True)", "    res = np.einsum._implementation(subscripts, *[np.asarray(o) for o in operands], out=out_view, **kwargs)\n\n    if getattr(out, \"units\", None) is not None:\n        out.units = ret_units\n\n    return res * ret_units", (), benign=True),
+    Mutant("range-limit-wrong-axis", AF, "_sanitize_range", "imin.to_value(units[i]), imax.to_value(units[i])", "imin.to_value(units[i]), imax.to_value(units[0])", ("C07-R5",)),
 ]
